@@ -1,4 +1,6 @@
 """C02 – matching prefers label-compatible pairs, then best score."""
+import ast
+
 from sa.report import Ctx
 from rules import matching as M
 
@@ -14,7 +16,37 @@ EXPLANATION = (
 )
 
 
+def rule_policy_config(ctx: Ctx) -> None:
+    """Which label policy the matcher is CONFIGURED with: the named policy if given, else ALLOW_UNKNOWN iff allow_matching_unknown (default off), else DEFAULT;
+    merging of similar labels is off unless asked for."""
+    from rules.common import S, enum_paths
+    fi = ctx.func("config.perception_evaluation_config.PerceptionEvaluationConfig._extract_label_params")
+    CFG = "evaluation_config_dict.copy()"
+    rows = set()
+    for p in enum_paths(ctx, fi):
+        f = {S(k): v for k, v in p.facts.items()}
+        named = next((v for k, v in f.items() if k in (f"call:{CFG}.get('matching_label_policy')", "call:e_cfg.get('matching_label_policy')")), None)
+        ctx.require(named is not None and isinstance(p.retval, ast.Dict), "_extract_label_params: decision on matching_label_policy / returned dict not recognised")
+        d = {S(k).strip("'"): S(v) for k, v in zip(p.retval.keys, p.retval.values)}
+        pol = d.get("matching_label_policy")
+        if named:
+            rows.add("named")
+            ctx.check(pol == f"MatchingLabelPolicy.from_str({CFG}.get('matching_label_policy'))", "C02-policy-config", "_extract_label_params", "named", f"a named policy is configured as `{pol}`", fi=fi)
+        else:
+            unk = next((v for k, v in f.items() if "allow_matching_unknown" in k), None)
+            ctx.require(unk is not None, "_extract_label_params: allow_matching_unknown test not recognised")
+            key = next(k for k in f if "allow_matching_unknown" in k)
+            ctx.check(key.endswith("get('allow_matching_unknown',False)"), "C02-policy-config", "_extract_label_params", "allow-unknown-default", f"allow_matching_unknown is read as `{key.split(':', 1)[1][-60:]}`; it is off by default", fi=fi)
+            rows.add(f"flag={int(bool(unk))}")
+            want = "MatchingLabelPolicy.ALLOW_UNKNOWN" if unk else "MatchingLabelPolicy.DEFAULT"
+            ctx.check(pol == want, "C02-policy-config", "_extract_label_params", f"allow_unknown={int(bool(unk))}", f"with allow_matching_unknown={bool(unk)} the policy is `{pol}`; expected {want}", fi=fi, expected=want, found=str(pol))
+        ctx.check(d.get("merge_similar_labels") == f"{CFG}.get('merge_similar_labels',False)", "C02-policy-config", "_extract_label_params", "merge-default", f"merge_similar_labels is `{d.get('merge_similar_labels')}`; merging is off by default", fi=fi)
+        ctx.check(d.get("label_prefix") == f"{CFG}['label_prefix']", "C02-policy-config", "_extract_label_params", "label-prefix", f"label_prefix is `{d.get('label_prefix')}`", fi=fi)
+    ctx.require(rows == {"named", "flag=0", "flag=1"}, f"_extract_label_params: rows {sorted(rows)}")
+
+
 def run(ctx: Ctx) -> None:
+    ctx.run(rule_policy_config)
     ctx.run(M.rule_stage_structure)
     ctx.run(M.rule_score_table, "C02-score-table")
     ctx.run(M.rule_cmpdir)
